@@ -34,7 +34,8 @@ var schedSeq int
 
 // mkSchedBody: log in, let the session age (so that the once-a-day expiry
 // refresh is due or not), then run the threads: "req" = authenticated request,
-// "out" = logout, "req2" = another request.
+// "out" = logout, "req2" = another request, "bad" = a failed login from
+// another address (limit 3).
 func mkSchedBody(tmp string, threads []string, ttl uint32, age int) func() vsync.Body {
 	return func() vsync.Body {
 		schedSeq++
@@ -51,9 +52,14 @@ func mkSchedBody(tmp string, threads []string, ttl uint32, age int) func() vsync
 		}
 		vtime.AdvanceVirtual(time.Duration(age) * time.Second)
 		loggedOut := false
+		nBad := 0
 		var fs []func()
 		for _, t := range threads {
 			switch t {
+			case "bad":
+				// A failed login from one and the same other address.
+				nBad++
+				fs = append(fs, func() { home.VerifC12Login("192.0.2.9:2000", home.VerifC12User, "wrong-password", nil) })
 			case "req", "req2":
 				fs = append(fs, func() { home.VerifC12Request(cookie) })
 			case "tick":
@@ -73,6 +79,14 @@ func mkSchedBody(tmp string, threads []string, ttl uint32, age int) func() vsync
 		return vsync.Body{
 			Names: threads, Threads: fs,
 			Final: func() string {
+				if nBad >= 3 {
+					// The configured number of failures (3) has been reached, whatever
+					// their interleaving: the next attempt, correct password included,
+					// is refused.
+					if st, _, _, _ := home.VerifC12Login("192.0.2.9:2001", home.VerifC12User, home.VerifC12Password, nil); st != 429 {
+						return fmt.Sprintf("not-blocked-after-concurrent-failures: %d failed logins from one address have completed (limit 3); the next login with the correct password answers HTTP %d, want 429", nBad, st)
+					}
+				}
 				if !loggedOut {
 					return ""
 				}
@@ -98,7 +112,7 @@ func mkSchedBody(tmp string, threads []string, ttl uint32, age int) func() vsync
 
 func phaseSchedules(c *lib.Ctx) {
 	idx := 0
-	for _, threads := range [][]string{{"req", "out"}, {"out", "req", "tick"}, {"req", "req2", "out"}} {
+	for _, threads := range [][]string{{"req", "out"}, {"out", "req", "tick"}, {"req", "req2", "out"}, {"bad", "bad", "bad"}} {
 		maxBound := 2
 		if len(threads) > 2 {
 			maxBound = 1
